@@ -149,6 +149,10 @@ class LoopTranslator:
                 fn = {ast.Add: "Val.add", ast.Sub: "Val.sub"}.get(op)
                 if fn:
                     return f"({fn} {self.coerce(ls, lt, 'Val')} {self.coerce(rs, rt, 'Val')})", "Val"
+                if op is ast.Div and rt == "Int":
+                    # true division of an accumulated value by an integer count: an uninterpreted function parameter
+                    self.uses_div = True
+                    return f"(divf {self.coerce(ls, lt, 'Val')} {rs})", "Val"
             raise TranslateError(f"{self.fname}: unsupported operator {op.__name__} on {lt}, {rt}")
         if isinstance(e, ast.Compare):
             if len(e.ops) != 1:
@@ -825,6 +829,7 @@ class LoopTranslator:
             sig.append(f"({lp} : {lean_ty(t)})")
             cx.env[p] = Var(lp, t, lens, (True, 64) if t == "A(Int)" else None, opt)
         cx.env["err!"] = Var("false", "Bool")
+        self.uses_div = False
         self.ret_ty = None
         self.pending_ret = None
         body = [s for s in fn.body]
@@ -842,6 +847,8 @@ class LoopTranslator:
         txt = "".join(d + "\n" for d in cx.defs)
         txt += (f"def {lean_name} (k : Kind) " + " ".join(sig) + f" : ({ret_ty}) × Bool :=\n"
                 + "".join(f"  {l}\n" for l in cx.lets) + f"  {esc}\n")
+        if self.uses_div:
+            txt = txt.replace(" (k : Kind) ", " (k : Kind) (divf : Val → Int → Val) ").replace("_step k ", "_step k divf ")
         return txt
 
 
@@ -876,6 +883,12 @@ LOOPS = {
                            "target": "A(Val)", "mask": "OptA(Bool)"}),
     "reduce_array_pair": ("numba", "reduce_array_pair",
                           {"x": "A(Val)", "y": "A(Val)", "reducer": "Red", "counts": "OptA(Int)", "y_counts": "OptA(Int)"}),
+    "rolling_shift_or_diff": ("numba", "_rolling_shift_or_diff_1d",
+                              {"group_key": "A(Int)", "values": "LL(Val)", "ngroups": "Int", "window": "Int",
+                               "mask": "OptA(Bool)", "null_value": "Val", "want_shift": "Bool"}),
+    "rolling_sum_or_mean": ("numba", "_rolling_sum_or_mean_1d",
+                            {"group_key": "A(Int)", "values": "LL(Val)", "ngroups": "Int", "window": "Int",
+                             "min_periods": "OptInt", "mask": "OptA(Bool)", "null_value": "Val", "want_mean": "Bool"}),
     "build_group_sorted_indexer": ("core", "_build_group_sorted_indexer_numba",
                                    {"group_key_list": "LL(Int)", "group_counts": "A(Int)", "key_map": "OptA(Int)",
                                     "mask": "OptA(Bool)"}),
